@@ -4,7 +4,9 @@ Part 1 (checks.core_check): freeze is part of the alphabet of the exhaustive mod
 random histories; TLC decides FrozenImmutable / NotRejected / is_frozen on every step.
 Part 2 (here): the method surface is discovered by introspection and probed on an unfrozen
 twin; whatever changes the twin must be rejected on the frozen network."""
+import contextlib
 import inspect
+import io
 import itertools
 import json
 import random
@@ -255,6 +257,87 @@ def probe_network(tag, cls, g, make):
     return recs, uncovered
 
 
+def library_probes(tag, cls, g, make):
+    """Library functions that receive a network: as the object to fill (create_using=) or as their
+    first argument.  Discovered by introspection of the xgi namespace; a call that changes an
+    unfrozen twin must be refused on the frozen network, and no call may change the frozen one."""
+    import os
+    import tempfile
+
+    import numpy as np
+    import pandas as pd
+
+    klass, proj = nets.CLASSES[cls]
+    j0, _ = proj(make(), g)
+    N = g.node
+    tmp = tempfile.mkdtemp(prefix="c18-", dir=common.scratch())
+    el = os.path.join(tmp, "el.txt")
+    open(el, "w").write("1 2\n2 3 4\n")
+    im = os.path.join(tmp, "im.txt")
+    open(im, "w").write("1 0\n1 1\n0 1\n")
+    other = {"H": xgi.Hypergraph([[1, 2], [2, 3]]), "DH": xgi.DiHypergraph([([1], [2])]),
+             "SC": xgi.SimplicialComplex([[1, 2]])}
+    data = [(), ([[N(0), N(7)], [N(7), N(8)]],), ({3: [N(0), N(7)], 4: [N(8)]},), (3,), (["1 2", "2 3"],), (el,), (im,),
+            (np.array([[1, 0], [1, 1]]),), (pd.DataFrame({"a": [1, 2, 2], "b": [0, 0, 1]}),), (other["H"],), (other["DH"],),
+            (other["SC"],), ([([N(0)], [N(7)])],), ({3: ([N(0)], [N(7)])},)]
+    recs = []
+
+    def probe(rid, what, name, f):
+        twin = make()
+        with warnings.catch_warnings(), contextlib.redirect_stdout(io.StringIO()):
+            warnings.simplefilter("ignore")
+            try:
+                random.seed(1)
+                f(twin)
+                raised = None
+            except Exception as ex:  # noqa: BLE001
+                raised = ex
+        jt, _ = proj(twin, g)
+        changed = struct(jt) != struct(j0)
+        if raised is not None and not changed:
+            return  # not a valid call for this network / these arguments
+        fz = make()
+        fz.freeze()
+        pre, _ = proj(fz, g)
+        with warnings.catch_warnings(), contextlib.redirect_stdout(io.StringIO()):
+            warnings.simplefilter("ignore")
+            try:
+                random.seed(1)
+                f(fz)
+                res = "ok"
+            except Exception as ex:  # noqa: BLE001
+                res = hg.classify(ex)
+        post, _ = proj(fz, g)
+        recs.append({"rid": rid, "what": what[:160], "kind": "probe", "name": name, "twinChanged": bool(changed), "res": res,
+                     "pre": pre, "post": post})
+
+    for fname in sorted(n for n in dir(xgi) if not n.startswith("_")):
+        f = getattr(xgi, fname)
+        if not inspect.isfunction(f) or (f.__module__ or "").startswith(("xgi.drawing", "xgi.dynamics")):
+            continue
+        if fname.startswith(("download", "load_", "request_")):
+            continue
+        try:
+            params = inspect.signature(f).parameters
+        except (TypeError, ValueError):
+            continue
+        if "create_using" in params:
+            for di, args in enumerate(data):
+                probe(f"{tag}.{cls}.lib.{fname}.cu{di}", f"xgi.{fname}(<data #{di}>, create_using=<{cls}>)", f"xgi.{fname}(create_using=)",
+                      lambda X, f=f, args=args: f(*args, create_using=X))
+        ps = list(params.values())
+        if ps and ps[0].name in ("H", "S", "SC", "net", "DH", "hypergraph", "data") and all(
+                q.default is not inspect.Parameter.empty or q.kind in (q.VAR_KEYWORD, q.VAR_POSITIONAL) for q in ps[1:]):
+            probe(f"{tag}.{cls}.lib.{fname}", f"xgi.{fname}(<{cls}>)", f"xgi.{fname}", lambda X, f=f: f(X))
+            if "in_place" in params:
+                probe(f"{tag}.{cls}.lib.{fname}.inplace", f"xgi.{fname}(<{cls}>, in_place=True)", f"xgi.{fname}(in_place=True)",
+                      lambda X, f=f: f(X, in_place=True))
+    import shutil
+
+    shutil.rmtree(tmp, ignore_errors=True)
+    return recs
+
+
 def make_factory(cls, g, variant):
     def make():
         H = nets.seed_network(cls, g)
@@ -281,6 +364,7 @@ def run(tier, seed_):
                 r, u = probe_network(f"v{variant}f{fi}", cls, g, make_factory(cls, g, variant))
                 recs += r
                 uncovered += u
+                recs += library_probes(f"v{variant}f{fi}", cls, g, make_factory(cls, g, variant))
     log(f"[C18] surface probing: {len(recs)} probe records ({t():.0f}s)")
     # freeze protects the structure (attribute setters stay allowed): probes compare structure + flag
     for r in recs:
